@@ -246,7 +246,7 @@ def judgeAsm (out : List String) : P Unit := do
   | "mul" => let fam ← next; let a ← nextHex; let b ← nextHex; expectToks "asm mul" [toHex 192 (a * b)] out
              let (_, v) ← asmModel (if fam == "bmi2" then "bmi2_adx_bigint_768_multiply" else "bigint_768_multiply") 12 [(a, 6), (b, 6)] [] [] "n"
              tie s!"{fn} {fam}" [toHex 192 v]
-             -- the ARMv6-M routine executes `ldr r4, [sp, #36]` (multiply.s:423), a load of the word at the
+             -- the ARMv6-M routine executes `ldr r4, [sp, #36]` (multiply.s:427), a load of the word at the
              -- caller's SP, although it has no stack argument: one word of the caller's frame is made readable
              armTies "asm mul" "bigint_768_multiply" 12 [(a, 6), (b, 6)] [] [] "n" "none" out 1
   | "sqr" => let fam ← next; let a ← nextHex; expectToks "asm sqr" [toHex 192 (a * a)] out
